@@ -1,6 +1,6 @@
 #!/usr/bin/env python3
 """Generate MANIFEST.json from the property tables (single place to edit)."""
-import json, subprocess, sys
+import json, os, subprocess, sys
 sys.path.insert(0, os.environ.get("VERIF_ROOT", "/verif"))
 hooks = subprocess.check_output(["git", "-C", "/repo", "log", "--format=%h %s"]).decode().splitlines()
 hook_commits = [l.split()[0] for l in hooks if l.split(" ", 1)[1].startswith("verif hooks")]
@@ -22,7 +22,7 @@ TRACE = {
 }
 MODEL = {"C01", "C02", "C03", "C04", "C06", "C09", "C10"}
 MODEL_CAT = MODEL | {"C05"}
-MODEL_TXT = ". Design level: the generative specification spec/YuniKorn.tla (explicit node and queue ledgers, reservations, the placeholder swap pipeline, the shim's protocol view, confirmations in any order) is model-checked exhaustively by TLC within the bounds of spec/MC_YK_intended*.cfg against the invariants C01_*..C10_*; TLC-generated environment histories (all bounded behaviours + sampled long ones) are replayed on the real core"
+MODEL_TXT = ". Design level: the generative specification spec/YuniKorn.tla (explicit node and queue ledgers, reservations, the placeholder swap pipeline, predicate refusals, release of single keys and of everything, the shim's protocol view, confirmations in any order) is model-checked exhaustively by TLC within the bounds of spec/MC_YK_intended*.cfg (cold start) and of the warm starts MC_YK_warm.cfg / MC_YK_warm2.cfg (a placeholder allocated / plus a smaller real task waiting) and MC_YK_full.cfg (both nodes full: the reservation regime) against the invariants C01_*..C10_*; TLC-generated environment histories (all bounded behaviours from each start state + sampled long ones) are replayed on the real core"
 checks = []
 for p, txt in TRACE.items():
     checks.append({
@@ -84,5 +84,5 @@ m = {
  "not_applicable": [{"property_id": k, "reason": v} for k, v in sorted(NA.items())],
  "notes": "See DESIGN.md. KNOWN_FINDINGS.json lists genuine defects (known / fixed). bin/check <id> [quick|thorough] [--replay file].",
 }
-json.dump(m, open("/verif/MANIFEST.json", "w"), indent=1)
+json.dump(m, open(os.environ.get("VERIF_ROOT", "/verif") + "/MANIFEST.json", "w"), indent=1)
 print("checks:", len(checks), "n/a:", len(NA))
